@@ -261,7 +261,7 @@ class RecordWorld(World):
         if just[0]:
             tdtype = "float64"
         op = {"op": which, "time": times, "form": form, "tol": tol, "tdtype": tdtype,
-              "offset": ro.choice([1, 1, 0, 2, ro.randint(0, 2 * n)]) if which == "select" else ro.choice([0, 0, 1, ro.randint(0, 2 * n)]),
+              "offset": ro.choice([1, 1, 0, 2, ro.randint(0, 2 * n), -ro.randint(1, n)]) if which == "select" else ro.choice([0, 0, 1, ro.randint(0, 2 * n), -ro.randint(1, n)]),
               "mode": ro.choice(["spy", "spy", "pair"]), "pair": ro.choice(PAIRS), "twin": ro.random() < 0.4,
               "tc": ro.choice([0.7, 2.0, 5.0, 20.0]), "reject": reject}
         if which == "insert":
